@@ -224,6 +224,23 @@ CLAIMED['C18'] = dict(
          'the stated property).',
     technique='Coq proof (attribute-map lemmas, induction over the source\'s reference list, composition with C06 exactness) + vm_compute correspondence on call histories')
 
+CLAIMED['C11'] = dict(
+    text='Index-level model of slice_to_dataset (Usid/SliceDset.v): per side the storage order, the selections, the rows / columns kept by the 2-D '
+         'slice, the Dimension descriptors handed to the writer (remaining dimensions in the order in which they vary, single-valued ones dropped, '
+         'placeholder) and the new matrices through the write_ind_val model of C08. Core theorem (Usid/SelEnum.v, induction over the radices): the '
+         'rows of a mixed-radix grid whose every digit lies in a per-digit subset, in increasing order, enumerate the product of the subsets in the '
+         'same mixed-radix order (explicit formula; count; digits of the j-th kept row). Consequences: exactly the selected rows are kept, once, in '
+         'source order; element (j,l) is the source element at the j-th kept row / l-th kept column; on a sliced side the new values matrix holds at '
+         'row j, in the column labelled with dimension d, the source index of the j-th kept row along d (position and spectroscopic shapes); a dropped '
+         'dimension is constant over the kept rows; refutation witness for the label order used before repair 9af1ddc. Correspondence: new data '
+         '(identities), labels, index and value matrices of both sides, reuse of the source\'s ancillaries, on generator datasets in every storage '
+         'order and on datasets written by write_main_dataset under both flags.',
+    design='5/C11',
+    note='Trusted: Coq kernel, harness. Selections reach the model sorted and de-duplicated (C07 proves that the 2-D slice does that). The tie of '
+         'get_unit_values on the sliced matrices to "chosen values in increasing index order" is validated by the correspondence, not proved. '
+         'Validity of the written dataset is C02\'s theorem plus the independent validator.',
+    technique='Coq proof (selected-rows enumeration theorem + composition with C08 write_ind_val theorems) + vm_compute correspondence against the written datasets')
+
 NOT_YET = {}
 
 TITLES = {}
